@@ -28,7 +28,9 @@ class Ctx(object):
     @property
     def gram(self):
         if self._gram is None:
-            self._gram = json.load(open(os.path.join(self.dir, "gram.json")))
+            import gram_aliases
+            text, self.gram_aliases = gram_aliases.canonicalize(open(os.path.join(self.dir, "gram.json")).read())   # renamed nonterminals -> the names the spec uses
+            self._gram = json.loads(text)
         return self._gram
 
     @property
